@@ -516,6 +516,10 @@ def _run_impl(case: dict) -> list:
         settings.searches.receive.max_results = case['cap']
         bus = EventBus()
         mgr = SharesManager(settings, bus, None)
+        if case.get('pickling'):
+            # the documented `executor_factory=ProcessPoolExecutor` configuration: scan calls and results are pickled
+            from vlib.simloop import PicklingExecutor
+            mgr.executor = PicklingExecutor()
         current: dict[str, Any] = {}
         stale: dict[str, Any] = {}
         clock = [1_000_000]
@@ -949,7 +953,17 @@ class C07(Property):
     def _cases(self, seed, tier, widen):
         rng = random.Random(f'C07-{seed}')
         n = (320 if tier == 'quick' else 4000) * widen
-        return list(WITNESSES) + [_gen_case(rng) for _ in range(n)]
+        cases = list(WITNESSES) + [_gen_case(rng) for _ in range(n)]
+        prng = random.Random(f'C07-pickling-{seed}')
+        out = []
+        for c in cases:
+            out.append(c)
+            if prng.random() < 0.3:
+                # the same history with the documented process-pool configuration: scan calls and results cross a pickle
+                # boundary (same model lines: which executor runs the scanner must not matter)
+                out[-1] = dict(c, pickling=True)
+        # every witness also in the pickling configuration
+        return out + [dict(w, pickling=True) for w in WITNESSES]
 
     def correspondence(self, seed, tier, model_ok, widen=1):
         res = KResult()
